@@ -66,6 +66,7 @@ class FnSpec:
         self.loops = kw.get('loops') or {}
         self.result = kw.get('result')          # declared kind of the result (for havoc at call sites)
         self.pure = kw.get('pure', False)
+        self.telescope = kw.get('telescope')    # local variable holding chunk boundaries (hint for flattening)
         self.functional = kw.get('functional', False)   # result is a function of `reads` (+ scalar args): canonical term
         self.varies = list(kw.get('varies') or [])      # objects whose learned state must not influence the result
         self.reads = kw.get('reads')            # read set of a pure method (its result is a function of it)
